@@ -108,6 +108,24 @@ Theorem C04_history_invariant :
 Proof. exact execute_c_transparent. Qed.
 Print Assumptions C04_history_invariant.
 
+(* The per-execution tables in any state whose entries are what the request
+   determines (not only empty) are transparent as well, at every call. *)
+Theorem C04_history_tables :
+  forall sch frags vs coerce_args world tyres cfuel sels_eqb argkey_eqb,
+    (forall a b, sels_eqb a b = true -> a = b) ->
+    (forall a b, argkey_eqb a b = true -> a = b) ->
+    forall fuel tname v p sels c,
+      cache_inv sch frags vs coerce_args cfuel c ->
+      exists c',
+        exec_sel_c sch frags vs coerce_args world tyres cfuel sels_eqb argkey_eqb fuel tname v p sels c =
+          (exec_sel sch frags vs coerce_args world tyres cfuel fuel tname v p sels, c') /\
+        cache_inv sch frags vs coerce_args cfuel c'.
+Proof.
+  intros sch frags vs coerce_args world tyres cfuel se ae H1 H2 fuel tname v p sels c Hc.
+  exact (exec_sel_c_pure sch frags vs coerce_args world tyres cfuel se ae H1 H2 fuel tname v p sels c Hc).
+Qed.
+Print Assumptions C04_history_tables.
+
 (* ... hence after any sequence of earlier requests (any documents, variables,
    worlds, also failing ones) on the same Schema object. *)
 Theorem C04_history :
